@@ -76,12 +76,17 @@ PolyArea2(poly) == IF Len(poly) = 0 THEN 0
                    ELSE Abs(Area2(poly[1])) - SumSeq([j \in 1..(Len(poly)-1) |-> Abs(Area2(poly[j+1]))], 1)
 MpArea2(mp) == SumSeq([i \in 1..Len(mp) |-> PolyArea2(mp[i])], 1)
 
+\* every pairwise meeting point of the segments is integral (the arrangement is decidable here)
+AllIntegral(E) == \A e \in E : \A f \in E : IntegralMeet(e, f)
+
 \* ---- contracts on a result multipolygon, shared by Layer P (BoolOps) and the Layer M checks ----
 \* the result, read polygon by polygon, is expression `ex` over the operands `recs` on both sides
 \* of every atom of the operands' arrangement
-RegionMatches(mp, ex, recs) ==
+\* (extra = further segments to refine the arrangement with: the result's own edges when they
+\*  are not known to lie on input edges)
+RegionMatches(mp, ex, recs, extra) ==
   LET bs == BaseNames(ex)
-      E == UNION {Segs(recs[n]) : n \in bs}
+      E == UNION {Segs(recs[n]) : n \in bs} \cup extra
       V == ArrVerts(E)
   IN \A s \in AtomsOf(E, V) :
         LET want == ExprPar(ex, recs, s)  got == PolyCount(mp, s)
